@@ -2,6 +2,9 @@ import CifModel.Lemmas.StoreWorld
 import CifModel.Model.StoreSchema
 import CifModel.Spec.DataModel
 import CifModel.Lemmas.StoreRefine
+import CifModel.Lemmas.StoreRefineQ
+import CifModel.Lemmas.StoreRefineS
+import CifModel.Lemmas.StoreRefineR
 /-
   Property C04 — the managed CIF behaves as the documented data model under any API history.
 
@@ -637,6 +640,92 @@ theorem C04_refines_get_frame (norm : Str → Str) (s : Store) (hd : CH) (n : Na
      | .ok h => (absContainer s.db (fuel + 1) hd.id hd.code).specGetFrame norm n.key n.valid = .ok (absContainer s.db fuel h.id h.code)
      | .error c => (absContainer s.db (fuel + 1) hd.id hd.code).specGetFrame norm n.key n.valid = .error c) :=
   getFrame_refines norm s hd n fuel hn
+
+/-- C04_refines, loop level, proved for create_loop (container-local form; `absLoops d cid` is exactly the loop list `abs` shows for
+    container `cid`): on success the container gains one loop — given category, given names in the given spelling and order, no
+    packet — appended; every other loop of the CIF is what it was; blocks and frames untouched.  Hypothesis beyond `Inv`:
+    `LoopNumsBelow` (loop numbers stay below next_loop_num — what tr1_unnumbered_loop guarantees; not yet part of `Inv`). -/
+theorem C04_refines_create_loop (d d' : Db) (cid : Nat) (cat : Option Str) (names : List Name) (l : LH) (h : Inv d)
+    (hb : LoopNumsBelow d cid) (he : createLoopBody cid cat names d = .ok (d', l)) :
+    absLoops d' cid = absLoops d cid ++ [{ category := cat, names := names.map (·.orig), packets := [] }] ∧
+    (∀ cid', cid' ≠ cid → absLoops d' cid' = absLoops d cid') ∧
+    d'.frames = d.frames ∧ d'.blocks = d.blocks ∧ l.cid = cid ∧ l.category = cat :=
+  createLoop_refines d d' cid cat names l h hb he
+
+/-- C04_refines, loop level, proved for add_packet (container-local form): on success the target loop gains exactly one packet at the
+    end — the given values, the unknown value for the items the packet omits (`packetFor`, which is the packet of
+    `Loop.specAddPacket`: `C04_add_packet_is_spec_packet`) — and every other loop of the CIF, blocks and frames are what they
+    were.  Hypothesis beyond `Inv`: `RowsBelow` (stored row numbers ≤ last_row_num; not yet part of `Inv`).
+    At the level of `abs` this is the documented behaviour even for packets that omit items: F30 (nothing is STORED for them)
+    only shows when the items that did get a value are removed later (`C04_cex_F30`). -/
+theorem C04_refines_add_packet (d d' : Db) (l : LH) (pkt : List (Str × V)) (h : Inv d) (hrb : RowsBelow d l.cid l.loopNum)
+    (hne : pkt ≠ []) (he : addPacketBody l pkt d = .ok (d', ())) :
+    (∀ cid', absLoops d' cid' = (d.loops.filter (fun x => x.cid == cid')).map (fun x =>
+        if x.cid == l.cid && x.loopNum == l.loopNum then
+          { absLoop d x with packets := (absLoop d x).packets ++ [packetFor d l.cid l.loopNum pkt] }
+        else absLoop d x)) ∧
+    d'.frames = d.frames ∧ d'.blocks = d.blocks :=
+  addPacket_refines d d' l pkt h hrb hne he
+
+theorem C04_add_packet_is_spec_packet (norm : Str → Str) (d : Db) (x : LoopRow) (pkt : List (Str × V)) (hn : ItemsNormOK norm d) :
+    packetFor d x.cid x.loopNum pkt =
+      (absLoop d x).names.map (fun n => ((pkt.find? (fun e => e.1 == norm n)).map (·.2)).getD .unk) :=
+  packetFor_eq_spec norm d x pkt hn
+
+/-- C04_refines, loop level, proved for the query get_value: provided every packet of the item's loop stores a value for the item
+    (`hcomplete` — what the documentation promises and F30 breaks), the values cif_container_get_value sees (none: CIF_NOSUCH_ITEM,
+    one: that value, several: CIF_AMBIGUOUS_ITEM with the first) are exactly the item's column of the loop's packets in the
+    documented model, in packet order (`C04_get_value_column`: that column is the k-th entry of every packet). -/
+theorem C04_refines_get_value (d : Db) (x : LoopRow) (i : ItemRow) (h : Inv d) (hi : i ∈ d.loopItems x.cid x.loopNum)
+    (hcomplete : ∀ r ∈ d.loopRows x.cid x.loopNum, d.hasValue x.cid i.name r = true) :
+    (d.valuesOf x.cid i.name).map (·.val) = absColumn d x i :=
+  getValue_refines d x i h hi hcomplete
+
+theorem C04_get_value_column (d : Db) (x : LoopRow) (i : ItemRow) (k : Nat) (hk : (d.loopItems x.cid x.loopNum)[k]? = some i) :
+    (absLoop d x).packets.map (fun p => p.getD k .unk) = absColumn d x i :=
+  absColumn_is_column d x i k hk
+
+/-- C04_refines, loop level, proved for set_value of an EXISTING item (SET_ALL_VALUES_SQL; "setting an item's value changes every
+    packet of its loop"): the item's loop keeps its names and its packets (same rows, same order); in every packet the item's
+    cell is the new value, every other cell is what it was; every other loop of the CIF is what it was; the loop, item, block and
+    frame tables are untouched.  No hypothesis beyond `Inv` (holds for packets with omitted items too). -/
+theorem C04_refines_set_value (d : Db) (x : LoopRow) (i : ItemRow) (v : V) (h : Inv d) (hx : x ∈ d.loops)
+    (hi : i ∈ d.loopItems x.cid x.loopNum) :
+    let d' := (d.setAllValues x.cid i.name v).1
+    absLoop d' x = { absLoop d x with packets := (d.loopRows x.cid x.loopNum).map (fun r =>
+        (d.loopItems x.cid x.loopNum).map (fun j => if j.name == i.name then v else cell d x.cid j r)) } ∧
+    (∀ y ∈ d.loops, ¬(y.cid = x.cid ∧ y.loopNum = x.loopNum) → absLoop d' y = absLoop d y) ∧
+    d'.loops = d.loops ∧ d'.items = d.items ∧ d'.frames = d.frames ∧ d'.blocks = d.blocks :=
+  setAllValues_refines d x i v h hx hi
+
+/-- C04_refines, loop level, proved for remove_item when other items stay in the loop (REMOVE_ITEM_SQL): provided every packet of
+    the loop stores a value for every item (`hcomplete` — what the documentation promises; F30 breaks it and then packets vanish
+    here: `C04_cex_F30`), the loop keeps its category, loses the item's name and column and keeps every packet (same rows, same
+    order, same other cells); every other loop of the CIF is what it was; loop, block and frame tables untouched. -/
+theorem C04_refines_remove_item (d : Db) (x : LoopRow) (i j0 : ItemRow) (h : Inv d) (hx : x ∈ d.loops)
+    (hi : i ∈ d.loopItems x.cid x.loopNum) (hj0 : j0 ∈ d.loopItems x.cid x.loopNum) (hne0 : j0.name ≠ i.name)
+    (hcomplete : ∀ r ∈ d.loopRows x.cid x.loopNum, ∀ j ∈ d.loopItems x.cid x.loopNum, d.hasValue x.cid j.name r = true) :
+    let d' := d.removeItem x.cid i.name
+    let keep := (d.loopItems x.cid x.loopNum).filter (fun j => !(j.name == i.name))
+    absLoop d' x = { category := x.category, names := keep.map (·.nameOrig),
+                     packets := (d.loopRows x.cid x.loopNum).map (fun r => keep.map (fun j => cell d x.cid j r)) } ∧
+    (∀ y ∈ d.loops, ¬(y.cid = x.cid ∧ y.loopNum = x.loopNum) → absLoop d' y = absLoop d y) ∧
+    d'.loops = d.loops ∧ d'.frames = d.frames ∧ d'.blocks = d.blocks :=
+  removeItem_refines d x i j0 h hx hi hj0 hne0 hcomplete
+
+/-- C04_refines, loop level, proved for DESTROY_LOOP_SQL — cif_loop_destroy, and remove_item of a loop's LAST item ("removing a
+    loop's last item removes the loop", with `remove_last_item_removes_loop`): exactly that loop disappears, every other loop of
+    the CIF is what it was, block and frame tables untouched.  No hypothesis beyond `Inv`. -/
+theorem C04_refines_destroy_loop (d : Db) (x : LoopRow) (h : Inv d) :
+    let d' := (d.destroyLoop x.cid x.loopNum).1
+    d'.loops = d.loops.filter (fun l => !(l.cid == x.cid && l.loopNum == x.loopNum)) ∧
+    (∀ y ∈ d.loops, ¬(y.cid = x.cid ∧ y.loopNum = x.loopNum) → absLoop d' y = absLoop d y) ∧
+    d'.frames = d.frames ∧ d'.blocks = d.blocks :=
+  destroyLoop_refines d x h
+
+/-- `absLoops` is what `abs` shows as the loops of a container -/
+theorem C04_absLoops_is_abs (d : Db) (fuel cid : Nat) (code : Str) : (absContainer d (fuel + 1) cid code).loops = absLoops d cid := by
+  simp [absContainer, Container.loops, absLoops]
 
 /-- C04_refines, block level, proved: cif_get_all_blocks reports the codes of the documented model's blocks, in created spelling -/
 theorem C04_refines_all_blocks (s : Store) :
